@@ -32,7 +32,11 @@ fn tuples() -> [Coor4D; 4] {
 fn verif_native_c09_definitions() {
     let prev = std::panic::take_hook();
     std::panic::set_hook(Box::new(move |info| {
-        let loc = info.location().map(|l| format!("{}:{}", l.file().rsplit('/').next().unwrap_or(""), l.line())).unwrap_or_default();
+        // site id: file name + the generic part of the message (robust against line shifts and input-specific details)
+        let file = info.location().map(|l| l.file().rsplit('/').next().unwrap_or("").to_string()).unwrap_or_default();
+        let msg = info.payload().downcast_ref::<String>().cloned().or_else(|| info.payload().downcast_ref::<&str>().map(|s| s.to_string())).unwrap_or_default();
+        let generic: String = msg.split(": ").next().unwrap_or("").chars().filter(|c| c.is_ascii_alphanumeric() || *c == ' ' || *c == '_' || *c == '(' || *c == ')').collect();
+        let loc = format!("{file}/{}", generic.trim().replace(' ', "-"));
         if std::thread::current().name().map(|n| n.contains("verif_native_c09_definitions")).unwrap_or(false) {
             PANICS.lock().unwrap().push(loc);
         } else {
